@@ -266,6 +266,60 @@ func cmdAPI(args []string) {
 			sqlwrap.Ctl.Hook = nil
 			pegnet.VerifWrapDB = nil
 		}
+		// ---- schedules 4a / 4b: a rich-list reader is the first to ask for the averages of the newest committed rated height c
+		//      (cache miss); while it is inside the cache function (a) its client hangs up (request context cancelled) resp.
+		//      (b) its read of pn_rate fails once. Whatever happens to the request, the sync goroutine must price block c+1
+		//      exactly as it would have without the reader.
+		for _, variant := range []string{"reader-cancelled-in-cache", "reader-db-error-in-cache"} {
+			g := &gate{}
+			node.VerifGate = g.hook
+			var fmu sync.Mutex
+			armed, injected := false, false
+			if variant == "reader-db-error-in-cache" {
+				pegnet.VerifWrapDB = sqlwrap.Wrap
+				sqlwrap.Ctl.Hook = func(ev *sqlwrap.Event) error {
+					fmu.Lock()
+					defer fmu.Unlock()
+					if armed && !injected && ev.Kind == "query" && strings.Contains(ev.SQL, "FROM pn_rate WHERE height") && inAPIGoroutine() {
+						injected = true
+						return errors.New("disk I/O error (injected by verif)")
+					}
+					return nil
+				}
+			}
+			r := newRunner(variant)
+			for h := config.PegnetActivation + 1; h <= cH; h++ {
+				r.Advance(h, 20*time.Second)
+			}
+			fmu.Lock()
+			armed = true
+			fmu.Unlock()
+			g.arm("avg:miss", true)
+			cancel, done := r.CallCancel("get-rich-list", map[string]interface{}{"asset": "PEG", "count": 5})
+			reached := g.wait(3 * time.Second)
+			if reached && variant == "reader-cancelled-in-cache" {
+				cancel()
+				time.Sleep(150 * time.Millisecond) // let the server notice that the client is gone
+			}
+			g.open()
+			select {
+			case <-done:
+			case <-time.After(10 * time.Second):
+			}
+			time.Sleep(50 * time.Millisecond)
+			eq := finish(r, cH+1)
+			fmu.Lock()
+			inj := injected
+			fmu.Unlock()
+			emit(map[string]interface{}{"ev": "ApiExp", "schedule": variant, "h": cH, "feasible": reached && (inj || variant == "reader-cancelled-in-cache"),
+				"reachedGate": reached, "seen": 0, "committed": 0, "equal": eq})
+			cancel()
+			r.StopAPI()
+			r.StopNode()
+			r.Srv.Stop()
+			sqlwrap.Ctl.Hook = nil
+			pegnet.VerifWrapDB = nil
+		}
 		node.VerifGate = nil
 	} else {
 		// ---- load: API clients hammer every read method while the chain is synced block by block
